@@ -86,7 +86,7 @@ Section RT.
   Definition row_names : list name := on :: map mr_name used.
   Definition has_records (c : mcol) : Prop := mps_records M (mc_lo c) (mc_up c) (mc_int c) <> [].
 
-  Record wf_mps : Prop := {
+  Record wf_core : Prop := {
     (* names are words (no blank, tab, CR, FF, VT, newline, NUL; not empty) and do not spell 'MARKER' at a quote *)
     w_on : word on /\ has_marker on = false;
     w_cols : forall c, In c cols -> word (mc_name c) /\ has_marker (mc_name c) = false;
@@ -98,14 +98,23 @@ Section RT.
     w_fresh : ~ In on (map mr_name used);
     w_some : used <> [];
     (* a '$' opens a comment from the third field of a BOUNDS record on *)
-    w_dollar : forall c, In c cols -> has_records c -> no_dollar (mc_name c);
-    (* the blank-set-name heuristic: when the writer's set name is itself a row (column) name, no row (column) that
-       occurs in the section may start like a number *)
-    w_set_rhs : In (s2l "RHS") row_names -> forall r, In r used -> rhs_entry r <> None -> numlike (mr_name r) = false;
-    w_set_rng : In (s2l "RANGE") row_names -> forall r, In r used -> range_entry r <> None -> numlike (mr_name r) = false;
-    w_set_bnd : In (s2l "BOUND") (map mc_name cols) -> forall c, In c cols -> has_records c -> numlike (mc_name c) = false }.
+    w_dollar : forall c, In c cols -> has_records c -> no_dollar (mc_name c) }.
 
-  Hypothesis WF : wf_mps.
+  (* the set names the writer uses for the RHS, RANGES and BOUNDS sections *)
+  Variables nrh nrg nbn : name.
+  Hypothesis Wrh : word nrh.
+  Hypothesis Wrg : word nrg.
+  Hypothesis Wbn : word nbn.
+
+  (* the blank-set-name heuristic: when the writer's set name is itself a row (column) name, no row (column) that
+     occurs in the section may start like a number *)
+  Definition set_ok : Prop :=
+    (In nrh row_names -> forall r, In r used -> rhs_entry r <> None -> numlike (mr_name r) = false) /\
+    (In nrg row_names -> forall r, In r used -> range_entry r <> None -> numlike (mr_name r) = false) /\
+    (In nbn (map mc_name cols) -> forall c, In c cols -> has_records c -> numlike (mc_name c) = false).
+
+  Hypothesis WF : wf_core.
+  Hypothesis SO : set_ok.
 
   (* ---- facts about the sections ------------------------------------------------------------------------------------------------ *)
   Lemma used_in r : In r used -> In r (m_rows P).
@@ -140,18 +149,19 @@ Section RT.
 
   (* ---- the written file ------------------------------------------------------------------------------------------------------------ *)
   Definition rng_lines (ro : option (list (name * Q))) : list line :=
-    match ro with Some l => s2l "RANGES" :: map (fun e => rng_line (fst e) (snd e)) l | None => [] end.
-  Definition bnd_lines (items : list (mrec * name)) : list line := match items with [] => [] | it :: l => s2l "BOUNDS" :: map mrec_line (it :: l) end.
+    match ro with Some l => s2l "RANGES" :: map (fun e => set_line nrg (fst e) (snd e)) l | None => [] end.
+  Definition bnd_lines (items : list (mrec * name)) : list line := match items with [] => [] | it :: l => s2l "BOUNDS" :: map (mrec_line_gen nbn) (it :: l) end.
   Definition rng_part : list line := rng_lines (sec_ranges S0).
   Definition bnd_part : list line := bnd_lines (sec_bounds S0).
+  Definition the_file : list line := render_gen nrh nrg nbn S0.
 
-  Lemma write_shape : write_mps M P =
+  Lemma write_shape : the_file =
     [s2l "NAME    " ++ m_probname P; s2l "OBJSENSE"; (if m_max P then s2l "  MAX" else s2l "  MIN"); s2l "OBJNAME"; s2l "  " ++ on; s2l "ROWS"] ++
     ((s2l " N  " ++ on) :: (map (fun sr : sense * name => sense_key (fst sr) ++ snd sr) (sec_rows S0) ++
       (s2l "COLUMNS" :: (map citem_line (sec_cols S0) ++
-        (s2l "RHS" :: (map (fun e => rhs_line (fst e) (snd e)) (sec_rhs S0) ++ (rng_part ++ (bnd_part ++ [s2l "ENDATA"])))))))).
+        (s2l "RHS" :: (map (fun e => set_line nrh (fst e) (snd e)) (sec_rhs S0) ++ (rng_part ++ (bnd_part ++ [s2l "ENDATA"])))))))).
   Proof.
-    unfold write_mps, render, rng_part, bnd_part, rng_lines, bnd_lines, S0.
+    unfold the_file, render_gen, rng_part, bnd_part, rng_lines, bnd_lines, S0.
     cbn [sections_of sec_name sec_max sec_objname sec_rows sec_cols sec_rhs sec_ranges sec_bounds app]. rewrite <- ?app_assoc. reflexivity.
   Qed.
 
@@ -198,7 +208,7 @@ Section RT.
   (* ---- conditional sections ---------------------------------------------------------------------------------------------------------------- *)
   Lemma ranges_part nm mx (ro : option (list (name * Q))) rest a :
     existsb (skey_eqb KRanges) (a_seen a) = false -> existsb (skey_eqb KRows) (a_seen a) = true -> a_rg a = None ->
-    (forall l, ro = Some l -> NoDup (map fst l) /\ forall e, In e l -> rng_ok (a_rows a) e) ->
+    (forall l, ro = Some l -> NoDup (map fst l) /\ forall e, In e l -> rng_ok nrg (a_rows a) e) ->
     exists a', mrun M (rng_lines ro ++ rest) (mk nm mx on a)
                = mrun M rest (mk nm mx on a') /\
                a_rows a' = rows_upd (fun v => set_rng_row (rr v)) (match ro with Some l => l | None => [] end) (a_rows a) /\
@@ -209,7 +219,7 @@ Section RT.
     intros NS KR RG OK. destruct ro as [l|]; unfold rng_lines.
     - destruct (OK l eq_refl) as [ND OKl]. cbn [app].
       rewrite (head_read M nm mx on (s2l "RANGES") (s2l "RANGES") KRanges ARanges a _ scan_ranges ltac:(discriminate) eq_refl eq_refl NS); [|unfold order_ok, seen; cbn [mk x_seen]; exact KR|reflexivity].
-      destruct (ranges_read M nm mx on l rest (with_head a KRanges ARanges) eq_refl (or_introl RG) ND OKl) as (rg & R).
+      destruct (ranges_read M nm mx on nrg Wrg l rest (with_head a KRanges ARanges) eq_refl (or_introl RG) ND OKl) as (rg & R).
       eexists. split; [exact R|]. cbn. repeat split; reflexivity.
     - exists a. cbn [app]. rewrite rows_upd_nil. repeat split; reflexivity.
   Qed.
@@ -219,7 +229,7 @@ Section RT.
 
   Lemma bounds_part nm mx (items : list (mrec * name)) rest a :
     existsb (skey_eqb KBounds) (a_seen a) = false -> existsb (skey_eqb KCols) (a_seen a) = true -> a_bn a = None ->
-    (forall it, In it items -> bnd_ok (a_cols a) it) ->
+    (forall it, In it items -> bnd_ok nbn (a_cols a) it) ->
     exists a', mrun M (bnd_lines items ++ rest) (mk nm mx on a) = mrun M rest (mk nm mx on a') /\
                a_rows a' = a_rows a /\ a_cols a' = cols_bnd M items (a_cols a).
   Proof.
@@ -227,7 +237,7 @@ Section RT.
     - exists a. rewrite cols_bnd_nil. repeat split; reflexivity.
     - cbn [app].
       rewrite (head_read M nm mx on (s2l "BOUNDS") (s2l "BOUNDS") KBounds ABounds a _ scan_bounds ltac:(discriminate) eq_refl eq_refl NS); [|unfold order_ok, seen; cbn [mk x_seen]; exact KC|reflexivity].
-      destruct (bounds_read M nm mx on (it :: items) rest (with_head a KBounds ABounds) eq_refl (or_introl BN) OK) as (bn & R).
+      destruct (bounds_read M nm mx on nbn Wbn (it :: items) rest (with_head a KBounds ABounds) eq_refl (or_introl BN) OK) as (bn & R).
       eexists. split; [exact R|]. cbn. split; reflexivity.
   Qed.
 
@@ -251,14 +261,14 @@ Section RT.
   Qed.
 
   (* ---- the file ------------------------------------------------------------------------------------------------------------------------------------ *)
-  Theorem file_read : exists nm af, mrun M (write_mps M P) xraw0 = MOk (mk nm (m_max P) on af) /\ a_rows af = rows8 /\ a_cols af = cols10.
+  Theorem file_read : exists nm af, mrun M the_file xraw0 = MOk (mk nm (m_max P) on af) /\ a_rows af = rows8 /\ a_cols af = cols10.
   Proof.
     destruct (w_on WF) as [WO HO]. destruct (w_cwf WF) as (CND & CW & CNE & CHI).
     rewrite write_shape.
     destruct (header_read M (m_probname P) (m_max P) on
                ((s2l " N  " ++ on) :: (map (fun sr : sense * name => sense_key (fst sr) ++ snd sr) (sec_rows S0) ++
                  (s2l "COLUMNS" :: (map citem_line (sec_cols S0) ++
-                   (s2l "RHS" :: (map (fun e => rhs_line (fst e) (snd e)) (sec_rhs S0) ++ (rng_part ++ (bnd_part ++ [s2l "ENDATA"]))))))))
+                   (s2l "RHS" :: (map (fun e => set_line nrh (fst e) (snd e)) (sec_rhs S0) ++ (rng_part ++ (bnd_part ++ [s2l "ENDATA"]))))))))
                WO) as (nm & H1).
     exists nm. rewrite H1, (header_state nm (m_max P) on).
     set (a0 := {| a_rows := []; a_cols := []; a_seen := [KRows; KObjname; KObjsense; KName]; a_act := ARows; a_rh := None; a_rg := None; a_bn := None; a_iv := false |}).
@@ -280,13 +290,13 @@ Section RT.
     2:{ exact CNE. } 2:{ exact CND. } 2:{ intros; reflexivity. }
     set (a4 := with_cols (with_head a2 KCols ACols) (a_cols (with_head a2 KCols ACols) ++ map (xcol0 on) cols) false).
     rewrite (head_read M nm (m_max P) on (s2l "RHS") (s2l "RHS") KRhs ARhs a4 _ scan_rhs ltac:(discriminate) eq_refl eq_refl eq_refl eq_refl eq_refl).
-    destruct (rhs_read M nm (m_max P) on (sec_rhs S0) (rng_part ++ (bnd_part ++ [s2l "ENDATA"])) (with_head a4 KRhs ARhs) eq_refl (or_introl eq_refl)) as (rh & H6).
+    destruct (rhs_read M nm (m_max P) on nrh Wrh (sec_rhs S0) (rng_part ++ (bnd_part ++ [s2l "ENDATA"])) (with_head a4 KRhs ARhs) eq_refl (or_introl eq_refl)) as (rh & H6).
     { unfold S0. cbn [sections_of sec_rhs]. apply opt_entries_nodup, used_nodup. }
     { intros e IE. unfold S0 in IE. cbn [sections_of sec_rhs] in IE. destruct (in_opt_entries _ _ _ IE) as (r & IR & GR & EN).
       change (a_rows (with_head a4 KRhs ARhs)) with rows2. destruct (w_rows WF r IR) as [WR _]. unfold rhs_ok. rewrite EN.
       split; [exact WR|]. split.
       - destruct (find_rows2 (mr_name r) (in_map mr_name _ _ IR)) as (row & F & A & B & _). exists row. auto.
-      - intros HR. apply (w_set_rhs WF); [|exact IR|congruence]. rewrite <- rows2_names. now apply existsb_names. }
+      - intros HR. apply (proj1 SO); [|exact IR|congruence]. rewrite <- rows2_names. now apply existsb_names. }
     rewrite H6.
     set (a6 := with_rh (with_rows (with_head a4 KRhs ARhs) (rows_upd (fun v => set_rhs_row (rr v)) (sec_rhs S0) (a_rows (with_head a4 KRhs ARhs)))) rh).
     assert (R6 : a_rows a6 = rows6) by reflexivity.
@@ -299,7 +309,7 @@ Section RT.
         unfold rows6, rows_upd. rewrite (find_map_name xw_name); [|intros r0; destruct (lookupQ (xw_name r0) (sec_rhs S0)); reflexivity].
         rewrite F. cbn [option_map]. eexists. split; [reflexivity|].
         destruct (lookupQ (xw_name row) (sec_rhs S0)); cbn [set_rhs_row xw_rng xw_sense]; auto.
-      - intros HR. apply (w_set_rng WF); [|exact IR|congruence]. rewrite <- rows2_names.
+      - intros HR. apply (proj1 (proj2 SO)); [|exact IR|congruence]. rewrite <- rows2_names.
         apply existsb_names in HR. unfold rows6, rows_upd in HR. rewrite map_map in HR.
         rewrite (map_ext _ xw_name) in HR; [exact HR|]. intros r0. destruct (lookupQ (xw_name r0) (sec_rhs S0)); reflexivity. }
     unfold rng_part. rewrite H8.
@@ -310,7 +320,7 @@ Section RT.
       assert (HR : has_records c) by (unfold has_records; intros E; rewrite E in IRr; destruct IRr).
       destruct (w_cols WF c IC) as [WC _]. split; [exact WC|]. split; [exact (w_dollar WF c IC HR)|]. split.
       - apply existsb_cnames. rewrite cols4_names. now apply in_map.
-      - intros HB. apply (w_set_bnd WF); [|exact IC|exact HR]. rewrite <- cols4_names. now apply existsb_cnames. }
+      - intros HB. apply (proj2 (proj2 SO)); [|exact IC|exact HR]. rewrite <- cols4_names. now apply existsb_cnames. }
     unfold bnd_part. rewrite H10, mrun_endata.
     exists a10. split; [reflexivity|]. split.
     - rewrite R10, R8, R6. reflexivity.
@@ -499,13 +509,13 @@ Section RT.
       intros _. pose proof (proj2 (rr_spec (mr_range r) [] I)) as RG. symmetry. rewrite (Qabs_pos (rr (mr_range r))); [exact RG|lra].
   Qed.
 
-  Theorem mps_roundtrip_strong :
-    exists P', read_mps true M (write_mps M P) = Some P' /\ m_max P' = m_max P /\ m_objname P' = m_objname P /\
+  Theorem mps_roundtrip_strong_gen :
+    exists P', read_mps true M the_file = Some P' /\ m_max P' = m_max P /\ m_objname P' = m_objname P /\
                Forall2 col_rel (m_cols P) (m_cols P') /\ Forall2 row_same_q (filter (row_used (m_cols P)) (m_rows P)) (m_rows P').
   Proof.
     destruct file_read as (nm & af & RUN & RF & CF). rewrite rows8_eq in RF. rewrite cols10_eq in CF.
     exists (PF nm). split.
-    - unfold read_mps, read_mps_res. change (mloop true M (S (List.length (write_mps M P))) (write_mps M P) xraw0) with (mrun M (write_mps M P) xraw0).
+    - unfold read_mps, read_mps_res. change (mloop true M (S (List.length the_file)) the_file xraw0) with (mrun M the_file xraw0).
       rewrite RUN, (finish_ok nm af RF CF). reflexivity.
     - cbn [PF m_max m_objname m_cols m_rows]. split; [reflexivity|]. split; [reflexivity|]. split.
       + rewrite map_map. fold cols. assert (G : forall l, (forall c, In c l -> In c cols) -> Forall2 col_rel l (map (fun c => col_out (xcolF c)) l)).
@@ -516,9 +526,25 @@ Section RT.
         apply G. auto.
   Qed.
 
-  Theorem mps_roundtrip : exists P', read_mps true M (write_mps M P) = Some P' /\ equiv_by_name (mlp_to_nlp P) (mlp_to_nlp P') = true.
+  Theorem mps_roundtrip_gen : exists P', read_mps true M the_file = Some P' /\ equiv_by_name (mlp_to_nlp P) (mlp_to_nlp P') = true.
   Proof.
-    destruct mps_roundtrip_strong as (P' & R & EM & _ & FC & FR). exists P'. split; [exact R|].
+    destruct mps_roundtrip_strong_gen as (P' & R & EM & _ & FC & FR). exists P'. split; [exact R|].
     apply rel_equiv; [now symmetry|apply (w_cwf WF)|exact FC|exact FR].
   Qed.
 End RT.
+
+(* ---- the writer as found: set names RHS, RANGE, BOUND ----------------------------------------------------------------------------- *)
+Definition wf_mps (M : Q) (P : mlp) : Prop := wf_core M P /\ set_ok M P (s2l "RHS") (s2l "RANGE") (s2l "BOUND").
+
+Lemma word_lit_RHS : word (s2l "RHS"). Proof. split; [discriminate|reflexivity]. Qed.
+Lemma word_lit_RANGE : word (s2l "RANGE"). Proof. split; [discriminate|reflexivity]. Qed.
+Lemma word_lit_BOUND : word (s2l "BOUND"). Proof. split; [discriminate|reflexivity]. Qed.
+
+Theorem mps_roundtrip_strong M : 0 < M -> forall P, wf_mps M P ->
+  exists P', read_mps true M (write_mps M P) = Some P' /\ m_max P' = m_max P /\ m_objname P' = m_objname P /\
+             Forall2 col_rel (m_cols P) (m_cols P') /\ Forall2 row_same_q (filter (row_used (m_cols P)) (m_rows P)) (m_rows P').
+Proof. intros HM P [WC SO]. exact (mps_roundtrip_strong_gen M HM P (s2l "RHS") (s2l "RANGE") (s2l "BOUND") word_lit_RHS word_lit_RANGE word_lit_BOUND WC SO). Qed.
+
+Theorem mps_roundtrip M : 0 < M -> forall P, wf_mps M P ->
+  exists P', read_mps true M (write_mps M P) = Some P' /\ equiv_by_name (mlp_to_nlp P) (mlp_to_nlp P') = true.
+Proof. intros HM P [WC SO]. exact (mps_roundtrip_gen M HM P (s2l "RHS") (s2l "RANGE") (s2l "BOUND") word_lit_RHS word_lit_RANGE word_lit_BOUND WC SO). Qed.
